@@ -3,6 +3,7 @@ package props
 import (
 	"encoding/json"
 	"fmt"
+	"github.com/open-policy-agent/opa/rego"
 	yaml3 "gopkg.in/yaml.v3"
 	"sort"
 	"strings"
@@ -150,7 +151,7 @@ func checkReportAgainstModel(e *core.Env, rep *Report, rc config.ReportConfigura
 func C03(e *core.Env) {
 	res := e.Res
 	res.Rule = "cases = (profile with 3 validations each absent / listed under one level / under two levels / twice under one level / listed but undefined, graph, report configuration); " +
-		"every assignment of the 7 listing options to 3 validations is enumerated in the thorough tier (343 profiles), a seeded sample of 70 in the quick tier, x 3 graphs x 8 configurations with a fixed clock; " +
+		"every assignment of the 7 listing options to 3 validations is enumerated in the thorough tier (343 profiles), a seeded sample of 70 in the quick tier, x 3 graphs x 8 configurations with a fixed clock; profile names with accents, quotes, percent signs, astral characters; up to 24 of the non-empty reports are rebuilt by 8 goroutines at once and compared byte-wise with the sequential ones; " +
 		"observables: conforms, (severity, validation, focus) set, result key, context variant, profileName, dateCreated, schema IRIs, positional ids; " +
 		"non-trivial = the report has at least one result; distinct by (listing, graph, configuration)"
 	options := [][]string{{}, {"violation"}, {"warning"}, {"info"}, {"violation", "warning"}, {"warning", "info"}, {"violation", "violation"}}
@@ -193,10 +194,20 @@ func C03(e *core.Env) {
 			}
 		}
 	}
+	type seqJob struct {
+		compiled *rego.PreparedEvalQuery
+		data     string
+		rc       config.ReportConfiguration
+		clock    fixedClock
+		out      string
+		profile  string
+	}
+	jobs := []seqJob{}
+	nameStems := []string{"Levels", "Règles ünï", "API rules \U0001F680", "\U00020BB7野家 rules", "Levels \"quoted\" 100%"}
 	for li, ls := range all {
 		var b strings.Builder
-		pname := fmt.Sprintf("Levels %d-%d-%d", ls[0], ls[1], ls[2])
-		b.WriteString("#%Validation Profile 1.0\nprofile: " + pname + "\nprefixes:\n  ex: http://example.org/ns#\n")
+		pname := fmt.Sprintf("%s %d-%d-%d", nameStems[li%len(nameStems)], ls[0], ls[1], ls[2])
+		b.WriteString("#%Validation Profile 1.0\nprofile: " + yq(pname) + "\nprefixes:\n  ex: http://example.org/ns#\n")
 		for _, level := range []string{"violation", "warning", "info"} {
 			names := []string{}
 			for v := 0; v < 3; v++ {
@@ -304,6 +315,9 @@ func C03(e *core.Env) {
 					replay["first_configuration_report_stripped"] = core.Trunc(first, 2000)
 					res.Violate("impl-violates-property", "the report configuration changes more than dateCreated and the schema IRIs", replay)
 				}
+				if len(rep.Results) > 0 && len(jobs) < 24 && (li+gi+ci)%2 == 0 {
+					jobs = append(jobs, seqJob{compiled, data, rc, clock, out, profile})
+				}
 				res.Case(fmt.Sprintf("%v|g%d|c%d", ls, gi, ci), len(rep.Results) > 0)
 				res.Count(fmt.Sprintf("results=%d", len(rep.Results)))
 				if li == 3 && gi == 1 && ci == 0 {
@@ -311,6 +325,46 @@ func C03(e *core.Env) {
 				}
 			}
 		}
+	}
+	// reports with different severity mixes built at the same time: each must be byte-identical to the same call made alone
+	if len(jobs) > 1 {
+		workers, rounds := 8, e.Pick(40, 300)
+		type bad struct {
+			j   int
+			got string
+		}
+		var mu sync.Mutex
+		bads := []bad{}
+		var wg sync.WaitGroup
+		for w := 0; w < workers; w++ {
+			wg.Add(1)
+			go func(w int) {
+				defer wg.Done()
+				for r := 0; r < rounds; r++ {
+					j := (w*7 + r*3) % len(jobs)
+					o, err := pkg.ValidateCompiledWithConfiguration(jobs[j].compiled, jobs[j].data, false, nil, jobs[j].clock, jobs[j].rc)
+					if err != nil {
+						o = "error: " + err.Error()
+					}
+					if o != jobs[j].out {
+						mu.Lock()
+						if len(bads) < 3 {
+							bads = append(bads, bad{j, o})
+						}
+						mu.Unlock()
+					}
+				}
+			}(w)
+		}
+		wg.Wait()
+		for _, b := range bads {
+			j := jobs[b.j]
+			res.Violate("impl-violates-property", "a report built while other reports (other profiles, other severity mixes) are being built differs from the report of the same call alone",
+				map[string]any{"profile": j.profile, "data": j.data, "configuration": fmt.Sprintf("%+v", j.rc), "history": fmt.Sprintf("%d goroutines x %d ValidateCompiledWithConfiguration calls over %d (profile, data, configuration) jobs at the same time", workers, rounds, len(jobs)),
+					"alone": core.Trunc(j.out, 3000), "concurrent": core.Trunc(b.got, 3000), "first_diff_line": firstDiff(j.out, b.got)})
+		}
+		res.Case("concurrent-report-building", true)
+		res.Count("stream=concurrent")
 	}
 }
 
